@@ -11,11 +11,12 @@ position-keyed occurrences; the engine's marker trace must be one of the model's
 and whether OFF discards an occurrence that was already remembered).
 """
 
+import os
 import struct
 import itertools
 
 from .. import kernel as K
-from ..basicdrv import Driver
+from ..basicdrv import Driver, suspend_resume
 from .common import Run, execute, b, u
 
 NAME = 'events'
@@ -112,6 +113,9 @@ def gen(rng, tier, prop):
             ops.append({'op': 'occ', 'ev': ev, 'line': ln, 'count': 1})
     if rng.random() < 0.3:
         ops.append({'op': 'after', 'ev': rng.choice(evs)})
+    if rng.random() < 0.25:
+        # crash/restart while the program is stopped at a STOP statement: suspend, drop the session, resume
+        ops.append({'op': 'restart', 'cont': rng.randint(1, 3)})
     cfg = {
         'prog': prog,
         'session': {'syntax': rng.choice(['advanced', 'advanced', 'pcjr', 'tandy'])},
@@ -475,6 +479,7 @@ def run(case):
                     occ.setdefault((op['line'], op['count']), []).append(op['ev'])
             elif op['op'] == 'after':
                 after.append(op['ev'])
+        restarts = set(op['cont'] for op in case['ops'] if op['op'] == 'restart')
         w = run.w
         with w:
             d = Driver(w, **cfg['session'])
@@ -485,7 +490,7 @@ def run(case):
             counts = {}
             fired = set()
             delivered = []
-            impl = d.s._impl
+            cell = {'impl': d.s._impl}
 
             def step(token):
                 num = struct.unpack_from('<H', token, 2)[0]
@@ -507,6 +512,7 @@ def run(case):
                     w.inputs.pending.append(K.sig_stick_up(0, 0))
 
             def hook(wd):
+                impl = cell['impl']
                 it = impl.interpreter
                 if not (it.parse_mode and it.run_mode):
                     wd.tick_sleeps = 0
@@ -541,6 +547,15 @@ def run(case):
                     break
                 conts += 1
                 out += b'\n'
+                if conts in restarts:
+                    # only durable state survives: the session is saved, dropped and rebuilt from the file
+                    w.poll_hook = None
+                    d = suspend_resume(d, os.path.join(run.make_scratch(), 'state.bin'))
+                    cell['impl'] = d.s._impl
+                    d.s.set_hook(step)
+                    w.poll_hook = hook
+                    w.tick_sleeps = 0
+                    run.fault('restart')
                 r = d.exec(b'CONT', poll_cap=20000)
                 out += r.out
                 w.stats['conts'] += 1
